@@ -70,6 +70,8 @@ type c20tr struct {
 	recv string
 	ints map[string]bool // int-typed locals in scope (parameters, loop variables)
 	bad  string
+	// scanner mode (linetrim.go): `len(<slice>)` is the variable len, `<slice>[<idx>]` is the current rune r
+	slice, idx string
 }
 
 func (t *c20tr) fail(why string) string {
@@ -84,8 +86,20 @@ func (t *c20tr) expr(e ast.Expr) (string, string) {
 	case *ast.ParenExpr:
 		return t.expr(v.X)
 	case *ast.BasicLit:
-		if n, ok := IntLit(v); ok && v.Kind == token.INT {
+		if n, ok := IntLit(v); ok && (v.Kind == token.INT || (v.Kind == token.CHAR && t.slice != "")) {
 			return fmt.Sprintf("(%d : Int)", n), "int"
+		}
+	case *ast.CallExpr:
+		if id, ok := v.Fun.(*ast.Ident); ok && id.Name == "len" && len(v.Args) == 1 && t.slice != "" {
+			if a, ok := v.Args[0].(*ast.Ident); ok && a.Name == t.slice {
+				return "len", "int"
+			}
+		}
+	case *ast.IndexExpr:
+		if a, ok := v.X.(*ast.Ident); ok && t.slice != "" && a.Name == t.slice {
+			if ix, ok := v.Index.(*ast.Ident); ok && ix.Name == t.idx {
+				return "r", "int"
+			}
 		}
 	case *ast.Ident:
 		if v.Name == "true" || v.Name == "false" {
@@ -496,6 +510,60 @@ func init() {
 			sb.WriteString(untranslatable("trimEsc"))
 			sb.WriteString(untranslatable("trimEnd"))
 		}
+		// the three guards of the trimming scanner (outer loop, "is this the start of a colour sequence", inner loop)
+		func() {
+			names := []string{"trimOuterCond", "trimIsEsc", "trimInnerCond"}
+			fail := func() {
+				for _, n := range names {
+					sb.WriteString(untranslatable(n))
+				}
+			}
+			fd := c.Func(lt, "WriteLineNoWrap")
+			if fd == nil || fd.Body == nil {
+				fail()
+				return
+			}
+			var outer *ast.ForStmt
+			for _, st := range fd.Body.List {
+				if f, ok := st.(*ast.ForStmt); ok {
+					if outer != nil {
+						fail()
+						return
+					}
+					outer = f
+				}
+			}
+			if outer == nil || outer.Init != nil || outer.Post != nil || outer.Cond == nil || len(outer.Body.List) != 2 {
+				fail()
+				return
+			}
+			ifs, ok := outer.Body.List[0].(*ast.IfStmt)
+			if !ok || ifs.Init != nil || len(ifs.Body.List) != 1 {
+				fail()
+				return
+			}
+			inner, ok := ifs.Body.List[0].(*ast.ForStmt)
+			if !ok || inner.Init != nil || inner.Post != nil || inner.Cond == nil {
+				fail()
+				return
+			}
+			t := &c20tr{ints: map[string]bool{"i": true, "visibleRunes": true, "computedCols": true}, slice: "runes", idx: "i"}
+			conds := []ast.Expr{outer.Cond, ifs.Cond, inner.Cond}
+			docs := []string{"condition of the outer scan loop", "does a colour sequence start here", "condition of the inner loop that skips a colour sequence"}
+			var outs []string
+			for _, e := range conds {
+				l, ty := t.expr(e)
+				if ty != "bool" || t.bad != "" {
+					fail()
+					return
+				}
+				outs = append(outs, l)
+			}
+			for k, n := range names {
+				fmt.Fprintf(&sb, "/-- linetrim.go WriteLineNoWrap: %s (`r` = runes[i], `len` = len(runes)) -/\ndef %s (r i len visibleRunes computedCols : Int) : Bool :=\n  %s\n\n", docs[k], n, outs[k])
+			}
+		}()
+
 		// the cursor bookkeeping, statement by statement
 		sb.WriteString(c20Prelude)
 		c20New(c, &sb, mt)
